@@ -12,6 +12,16 @@ COMMON_NOTE = ("Trusted: Coq 8.16.1 kernel + vm_compute (no native_compute); the
                "glue; Go runtime / net/http / encoding/json etc. are modelled, not verified. ")
 
 CHECKS = {
+    "C01": dict(
+        text="Theorems over every event trace accepted by the load-balancer acceptor model/M5lb.v (props/C01.v): a request is forwarded to a target only "
+             "after every target created with it had a successful probe result and the deploy's wait succeeded; a failed wait makes the balancer inert "
+             "everywhere in the trace, the command returns 'unhealthy' and none of its steps changes the routing view; the wait succeeds only after each "
+             "target's probe goroutine rebuilt the rotation with it (D1's repair; pinned order refuted by a witness); accepted => monitor c01_ok. "
+             "Correspondence: directed deploy scenarios (1-4 targets; refused / non-2xx / slow / late / deadline +-1 ns probes; requests before / during / "
+             "at yields / after; new / existing / rollout; failed deploys) plus random concurrent scenarios on the real code under the virtual clock; every "
+             "recorded trace must be accepted; monitors c01_ok / c01_deadline_ok and probe-verdict / leak / served-by checks.",
+        note="No axioms. Restart is outside this acceptor; the timeout side is an acceptor rule and a monitor (timing model: C17); traces recorded with GOMAXPROCS(1), no async preemption.",
+        technique="Coq proof (state and history invariants over an event-trace acceptor, simulation to the monitor) + kernel-evaluated trace acceptance", ref="§7 C01"),
     "C04": dict(
         text="Theorems over all tables, hosts and paths on model/ServiceMap.v (props/C04.v: declarative route_spec incl. uniqueness, "
              "independence of sort/tie/map order and of table order, history-freedom over all command histories incl. restarts, port "
@@ -39,6 +49,15 @@ CHECKS = {
         note="No axioms. html/template modelled for the text context only; invalid UTF-8 in a stop message is coerced by Go's JSON encoder in the state file (handled explicitly); "
              "residue: /.well-known/acme-challenge/ paths on automatic-TLS root services are answered by autocert before any policy.",
         technique="Coq proof (per-byte case analysis, invariants over exec) + kernel-evaluated differential correspondence on a virtual clock", ref="§7 C08"),
+    "C09": dict(
+        text="Theorems over every accepted trace of model/M5lb.v (props/C09.v): claims come from the round-robin pick within the rotation of the last "
+             "KRotation = healthy targets; exclusion after a failed probe until made healthy again and rebuilt; recovery; none healthy => no target; "
+             "floor/ceil fairness of the cursor arithmetic and of accepted traces; accepted => c09_rebuild_ok and (without drain restores over failed probes) "
+             "c09_ok. Correspondence: flapping / all-failing / staggered / slow probe scripts, request bursts, parked requests, redeploys, drain scenarios "
+             "plus random scenarios; monitors c09_ok / c09_rebuild_ok / c09_cadence.",
+        note="No axioms. Recorded finding C09-F1 (D12: the end of a Drain writes 'healthy' over a failed probe result; a successful probe flips 'draining' back to "
+             "'healthy'). The 503 mapping belongs to C02; probe cadence is monitor-only.",
+        technique="Coq proof (invariants over an event-trace acceptor, arithmetic induction for fairness) + kernel-evaluated trace acceptance", ref="§7 C09"),
     "C10": dict(
         text="Theorems over all cookie header bytes, percentages, allowlists and histories (props/C10.v: exactness, stickiness, monotonicity, "
              "100% total, share bound, float comparison = integer threshold via Flocq, history theorem incl. restart); correspondence: "
@@ -93,6 +112,17 @@ CHECKS = {
              "router.go, cert.go and autocert's pre-ACME decisions by correspondence including real Router.GetCertificate calls.",
         note="No axioms. TLS handshake, ACME exchange and non-ASCII IDNA not modelled; ACME challenge paths are residue. Repaired defect (IPv6 redirect lost brackets) kept as refuted lemma on the pinned function.",
         technique="Coq proof (per-byte case analysis, invariants over exec) + kernel-evaluated differential correspondence on a virtual clock", ref="§7 C16"),
+    "C18": dict(
+        text="props/C18.v: accesses guarded by their lock are ordered by happens-before under Mutex/RWMutex semantics (locks_sound); a ranked lock order "
+             "excludes cyclic waits; soundness of check_guarded / lock_order_acyclic w.r.t. the call paths of the extracted facts; end-to-end c18_no_race / "
+             "c18_no_deadlock with the translator contract as explicit hypotheses; no command of any sequential history panics (M4). Tie = TRANSLATOR: "
+             "harness/lockfacts re-extracts lock/access/call/go/close facts from /repo's source on every run into a generated LockFacts.v; two vm_compute "
+             "obligations (facts guarded w.r.t. the written discipline, lock order acyclic) are discharged on them. A -race stress under the real "
+             "scheduler (mixed scenarios + targeted two-sided ones, watchdog, panic capture) searches for a concrete failing schedule.",
+        note="No axioms. Trusted: the translator (type-level lock identities, freshness analysis; blind to captured locals and shared slice elements) and the ByOrder/Confined classes "
+             "of the written discipline; the dynamic part only searches. Recorded findings: Service.options.TLS* rewritten by syncTLSOptionsFromRootDomain under the router lock "
+             "and read by requests / MarshalJSON without it. Five races repaired (fixed.json).",
+        technique="Coq proof of a lock-set / happens-before theory and of checker soundness + source translator re-run every time + kernel-evaluated verdict + -race stress", ref="§7 C18"),
     "C19": dict(
         text="Theorems on model/Logging.v (props/C19.v: logged status = last WriteHeader / successful Hijack (101), 200 if none, equal to the status "
              "the client is told under a coherence condition every path of the modelled chain satisfies; logged length = sum of bytes the underlying "
